@@ -192,11 +192,11 @@ MoreGre(p1, p2) == \E i \in DOMAIN p1 : p1[i] > p2[i] /\ \A j \in 1 .. i - 1 : p
 (* Even spreading of a total over n agents (generator quotas, targets and   *)
 (* projects per lecturer).                                                 *)
 Spread(n, total) == [i \in 1 .. n |-> (total \div n) + (IF i <= total % n THEN 1 ELSE 0)]
+RECURSIVE CumSeq(_, _)       \* q[1] + ... + q[l]
+CumSeq(q, l) == IF l = 0 THEN 0 ELSE q[l] + CumSeq(q, l - 1)
 SpreadAssign(np, nl) ==      \* project -> lecturer, shares as even as possible, larger first
     LET cnt == Spread(nl, np)
-        RECURSIVE Cum(_)
-        Cum(l) == IF l = 0 THEN 0 ELSE cnt[l] + Cum(l - 1)
-    IN  [p \in 1 .. np |-> CHOOSE l \in 1 .. nl : Cum(l - 1) < p /\ p <= Cum(l)]
+    IN  [p \in 1 .. np |-> CHOOSE l \in 1 .. nl : CumSeq(cnt, l - 1) < p /\ p <= CumSeq(cnt, l)]
 
 
 =============================================================================
